@@ -203,7 +203,6 @@ func (t *ReuseConnTransport) asyncDial(ctx context.Context) (*reusableConn, erro
 		var rc *reusableConn
 		if c != nil {
 			rc = newReusableConn(c, t.opts.IdleTimeout)
-			rc.exitIdle()
 			t.m.Lock()
 			if t.closed {
 				t.m.Unlock()
@@ -284,11 +283,16 @@ func newReusableConn(c net.Conn, idleTimeout time.Duration) *reusableConn {
 	if idleTimeout <= 0 {
 		idleTimeout = defaultIdleTimeout
 	}
+	// A new connection is handed straight to an exchange: it is born serving,
+	// with a stopped idle timer. (If the timer was running here it could close
+	// the connection before its first use; enterIdle then panics.)
 	rc := &reusableConn{
 		c:           c,
 		idleTimeout: idleTimeout,
+		serving:     true,
 	}
 	rc.idleTimer = time.AfterFunc(idleTimeout, rc.closeIfIdle)
+	rc.idleTimer.Stop()
 	return rc
 }
 
